@@ -272,6 +272,9 @@ class C12(Scenario):
                         if cs:
                             kw["coefficients_to_split"] = ["t"] + [["$", c] for c in rng.sample(cs, rng.randint(1, len(cs)))]
                         op = ["call", out, rng.choice(["sim.ops.preprocessed_form", "sim.ops.form_data"]), [["$", s_]], kw]
+                    elif q < 0.12:
+                        # read-only accessors that fill the lazy caches of a form in another order
+                        op = ["meth", out, ["$", s_], rng.choice(["coefficient_numbering", "constant_numbering", "terminal_numbering", "domain_numbering", "subdomain_data", "ufl_domains", "ufl_domain", "constants", "coefficients", "arguments", "geometric_dimension", "max_subdomain_ids", "base_form_operators", "empty", "ufl_cell"]), []]
                     elif q < 0.35:
                         op = ["obs", None, rng.choice(["sig", "sig", "sig", "hash", "args", "coeffs", "repr", "str", "meta"]), s_]
                     elif q < 0.45 and eslots:
@@ -311,7 +314,7 @@ class C12(Scenario):
                         op = ["call", out, fn, [["$", s_]]]
                         if fn.startswith("sim.ops.") and rng.random() < 0.5:
                             op.append({"do_apply_function_pullbacks": True, "do_apply_integral_scaling": True, "do_apply_geometry_lowering": True})
-                    if arm in ("faulty-noise", "probe") and op[0] in ("obs", "call", "cmp", "roundtrip") and rng.random() < 0.25:
+                    if arm in ("faulty-noise", "probe") and op[0] in ("obs", "call", "meth", "cmp", "roundtrip") and rng.random() < 0.25:
                         # the query / algorithm on the program's own object is cut short
                         if rng.random() < 0.75:
                             op = ["fault", rng.choice(["interrupt", "interrupt", "memerr"]), int(10 ** rng.uniform(0, 4.3)), op]
@@ -564,7 +567,7 @@ class C12(Scenario):
                 elif u.get("probe") and op[0] == "fault":
                     parts.add("fault:" + op[1] + ":probe")
                 elif u.get("probe"):
-                    parts.add("probe:" + (op[2] if op[0] in ("obs", "call") else op[0]))
+                    parts.add("probe:" + (op[2] if op[0] in ("obs", "call") else op[3] if op[0] == "meth" else op[0]))
                 else:
                     parts.add("noise")
         if str(n) in (plan.get("lowstack") or {}):
